@@ -97,19 +97,69 @@ def run(chk, S: Session):
         r1.require(nf.equal(xnew, want_x), f"{name} x+ = m - L dy", "new point = mean - cholesky @ dy (displacement from the mean in the range of L)",
                    f"new point has normal form {nf.show(nf.norm(xnew))}; expected {nf.show(nf.norm(want_x))}", where_of(xnew, where))
         chk.sample({"rule": "R-C19-1", "solver": name, "x_new_normal_form": nf.show(nf.norm(xnew))})
-        # --- R2
-        cs = conjuncts(w["cond"])
-        forms = [pred_form(c) for c in cs]
+        # --- R2: the continuation condition, read semantically (three-valued simplification under a case assumption)
+        i_sym = st.fields["i"]
+
+        def simp(c, first):
+            """Simplify the condition under 'this is the first evaluation' (i == 0) / 'a later one' (i >= 1); True/False/term."""
+            if not isinstance(c, T.Term):
+                return bool(c)
+            if c.op in ("eq", "ne") and any(a_ is i_sym for a_ in c.args) and any(isinstance(a_, (int, float)) and a_ == 0 for a_ in c.args):
+                return first if c.op == "eq" else (not first)
+            if c.op in ("le", "lt", "ge", "gt") and any(a_ is i_sym for a_ in c.args) and any(isinstance(a_, (int, float)) and not isinstance(a_, bool) for a_ in c.args):
+                k = next(a_ for a_ in c.args if isinstance(a_, (int, float)))
+                left = c.args[0] is i_sym
+                # i <= 0 / i < 1 / 0 >= i / 1 > i  characterise the first evaluation (i is a non-negative integer counter)
+                is_first_test = (left and ((c.op == "le" and k == 0) or (c.op == "lt" and k == 1))) or ((not left) and ((c.op == "ge" and k == 0) or (c.op == "gt" and k == 1)))
+                is_later_test = (left and ((c.op == "ge" and k == 1) or (c.op == "gt" and k == 0))) or ((not left) and ((c.op == "le" and k == 1) or (c.op == "lt" and k == 0)))
+                if is_first_test:
+                    return first
+                if is_later_test:
+                    return not first
+                return c
+            if c.op == "not":
+                r = simp(c.args[0], first)
+                return (not r) if isinstance(r, bool) else T.mk("not", (r,))
+            if c.op in ("and", "np.logical_and", "or", "np.logical_or"):
+                is_and = c.op in ("and", "np.logical_and")
+                parts = [simp(a_, first) for a_ in c.args]
+                if is_and:
+                    if any(p_ is False for p_ in parts):
+                        return False
+                    parts = [p_ for p_ in parts if p_ is not True]
+                else:
+                    if any(p_ is True for p_ in parts):
+                        return True
+                    parts = [p_ for p_ in parts if p_ is not False]
+                if not parts:
+                    return is_and
+                out_ = parts[0]
+                for p_ in parts[1:]:
+                    out_ = T.mk("and" if is_and else "or", (out_, p_))
+                return out_
+            return c
+
         n_fx = T.mk("linalg.vector_norm", (fx,))
         want_fx = (nf.add(nf.norm(T.mk("mul", (A("tol"), T.mk("np.sqrt", (T.mk("attr", (fx, "size")),))))), nf.norm(n_fx), -1), "<")
         want_i = (nf.add(nf.norm(st.fields["i"]), nf.norm(A("maxiter")), -1), "<")
         dx = st.fields["dx"]
         want_dx = (nf.add(nf.norm(T.mk("mul", (A("tol"), T.mk("np.sqrt", (T.mk("attr", (dx, "size")),))))), nf.norm(T.mk("linalg.vector_norm", (dx,))), -1), "<")
-        r2.require(not has_disjunction(w["cond"]) and None not in forms, f"{name} condition is a conjunction of comparisons", "", f"loop condition {T.show(w['cond'], 5)}", where)
-        r2.require(want_fx in forms, f"{name} stops when the constraint tolerance is met", "continue only while |fx| > tol*sqrt(size)", f"conjuncts: {[T.show(c, 4) for c in cs]}", where)
-        r2.require(want_i in forms, f"{name} iteration budget", "continue only while i < maxiter", f"conjuncts: {[T.show(c, 4) for c in cs]}", where)
+        later = simp(w["cond"], False)
+        cs = conjuncts(later) if isinstance(later, T.Term) else []
+        forms = [pred_form(c) for c in cs]
+        r2.require(isinstance(later, T.Term) and not has_disjunction(later) and None not in forms, f"{name} condition after the first step is a conjunction of comparisons", "", f"loop condition for i >= 1: {T.show(later, 5)}", where)
+        r2.require(want_fx in forms, f"{name} stops when the constraint tolerance is met", "for i >= 1: continue only while |fx| > tol*sqrt(size)", f"conjuncts for i >= 1: {[T.show(c, 4) for c in cs]}", where)
+        r2.require(want_i in forms, f"{name} iteration budget", "continue only while i < maxiter", f"conjuncts for i >= 1: {[T.show(c, 4) for c in cs]}", where)
         extra = [c for c, f in zip(cs, forms) if f not in (want_fx, want_i, want_dx)]
         r2.require(not extra, f"{name} no other stopping criterion", "conjuncts are exactly {constraint, budget, increment}", f"unexpected conjuncts {[T.show(c, 4) for c in extra]}", where)
+        # the first Gauss-Newton step is always taken (a feasible start is not necessarily optimal): at i == 0 only the budget may stop the loop
+        first = simp(w["cond"], True)
+        cs0 = conjuncts(first) if isinstance(first, T.Term) else []
+        forms0 = [pred_form(c) for c in cs0]
+        ok_first = first is True or (isinstance(first, T.Term) and not has_disjunction(first) and all(f == want_i for f in forms0) and bool(forms0))
+        r2.require(bool(ok_first), f"{name} the first step is always taken", "at i == 0 the loop continues whenever the budget allows (maxiter >= 1)",
+                   f"at i == 0 the loop continues only if {T.show(first, 5) if isinstance(first, T.Term) else first}: a start point that is feasible but not optimal is returned unchanged "
+                   "(displacement from the mean outside range(C J^T); affine constraints not solved)", where)
         i0 = init.fields["i"]
         r2.require(isinstance(i0, int) and not isinstance(i0, bool) and i0 == 0, f"{name} counter starts at 0", "", f"initial i = {T.show(i0)}", where)
         r2.require(nf.norm(body.fields["i"]) == nf.add(nf.norm(st.fields["i"]), nf.const(1)), f"{name} counter +1 per iteration", "", f"i -> {T.show(body.fields['i'])}", where)
@@ -125,14 +175,6 @@ def run(chk, S: Session):
         for key, f in (("iters", "i"), ("final_constraint", "fx"), ("final_increment", "dx")):
             r3.require(isinstance(stats, dict) and stats.get(key) is fin.fields[f], f"{name} stats[{key}]", f"= final.{f}", f"stats = {T.show(stats, 3)}", where)
         r3.require(w["init"].fields["x"] is x0, f"{name} starts at x0", "", "", where)
-        # the increment criterion must not stop the loop before the first iteration: the initial increment is a non-zero constant fill
-        # (|ones_like(x0)| = sqrt(size) > tol * sqrt(size) for every tol < 1); zeros would return x0 after 0 iterations, affine constraint or not
-        dx0 = init.fields["dx"]
-        ok0 = isinstance(dx0, T.Term) and dx0.op == "np.ones_like" and not T.value_atoms(dx0)
-        if isinstance(dx0, T.Term) and dx0.op in ("np.full_like",) and len(dx0.args) > 1 and isinstance(dx0.args[1], (int, float)):
-            ok0 = abs(dx0.args[1]) >= 1
-        r2.require(True if ok0 else (False if (isinstance(dx0, T.Term) and dx0.op in ("np.zeros_like", "np.zeros")) else None), f"{name} first iteration is not blocked by the increment test",
-                   "initial increment = ones_like(x0): its norm sqrt(size) exceeds tol*sqrt(size) for tol < 1", f"initial increment {T.show(dx0, 3)}: the increment criterion stops the loop before the first Gauss-Newton step", where)
 
     # --- R4: MAP Taylor point and its consumers
     it = S.interp()
